@@ -22,7 +22,7 @@ func main() {
 		panic(err)
 	}
 	w.Meta.Rule = "(a) scripts of 3..12 stack operations (Push/Pop/Get/SetTop/Insert/Remove/Replace/GetTop, indices valid, 0, +-(top+1), beyond, +-1000/9999) run by a NewFunction host function at activation depth 0..4 (Lua->Go->Lua->Go chains with 0..5, sometimes 60..105, caller locals; registries 256, 128 fixed and 128 growing), GetTop and every Get(i) logged after each operation, callers' registry cells read back raw and every caller checks its locals; " +
-		"(b) CallByParam/Call/PCall/GPCall x callee (Go, Lua fixed/vararg, non-function, table with __call) x nargs 0..4 x produced 0..4 x NRet -1..5 x Protect x failing callee at depth 0..4; " +
+		"(b) CallByParam/Call/PCall/GPCall x callee (Go, Lua fixed/vararg, non-function, table / userdata with a __call handler that records whether its first argument is the called object and its other arguments, compared with the Lua expression OBJ(a, b, ...)) x nargs 0..4 x produced 0..4 x NRet -1..5 x Protect x failing callee at depth 0..4; " +
 		"(b2) vm.go copyReturnValues driven through the hook on random frames (regv <= start, B = 0/1/>1, any count); (c) 15 object-level API calls vs the same operator in a Lua chunk on identically built operands (plain values, tables/userdata with random subsets of 12 logging metamethods). " +
 		"non-trivial = (a) frame base above 0 and a boundary/out-of-range index or a raise, no Go-nil holes; (b) depth > 0 and NRet != produced or a failing callee; (c) a metamethod was logged; distinct by Gallina term"
 	r := lib.NewRand(a.Seed)
@@ -91,6 +91,14 @@ func corpus(w *lib.Writer) {
 			{K: "replace", I: 0, V: 8}, {K: "replace", I: -7, V: 8}, {K: "replace", I: 7, V: 8}, {K: "settop", I: -7}, {K: "settop", I: -8}, {K: "push", V: 1}, {K: "settop", I: 3}, {K: "pop", I: 4}}}, "corpus/boundary")
 		runApi(w, ApiIn{Kind: "api", Depth: d, Locals: []int{100, 100, 100, 100, 100}, Init: []int{1}, Reg: RegOpt{Size: 128, Max: 1024, Grow: 1}, Ops: []AOp{
 			{K: "push", V: 2}, {K: "push", V: 3}, {K: "settop", I: 30}, {K: "insert", I: 1, V: 4}, {K: "remove", I: 2}, {K: "settop", I: 1}, {K: "gettop"}}}, "corpus/grow")
+	}
+	// seeded C10-4: the __call handler of a callable table / userdata must receive the object itself
+	for _, via := range []string{"callbyparam", "call", "pcall"} {
+		for _, callee := range []string{"callable-table", "callable-userdata"} {
+			for nargs := 0; nargs <= 4; nargs += 2 {
+				runCall(w, CallIn{Kind: "call", Via: via, Callee: callee, Depth: 1 + nargs/2, Locals: []int{2, 2, 2, 2, 2}, Init: []int{41}, NArgs: nargs, Junk: 1, Produced: 2, NRet: nargs - 1, Protect: nargs != 2, Reg: RegOpt{Size: 256}}, "corpus/callmeta")
+			}
+		}
 	}
 	for _, nret := range []int{-1, 0, 1, 3} {
 		runCall(w, CallIn{Kind: "call", Via: "callbyparam", Callee: "go", Depth: 3, Locals: []int{2, 2, 2, 2, 2}, Init: []int{41, 42}, NArgs: 2, Junk: 2, Produced: 2, NRet: nret, Protect: true, Reg: RegOpt{Size: 256}}, "corpus/call")
